@@ -2,6 +2,7 @@ import Driver.Util
 import Driver.C01
 import Driver.C02
 import Driver.C04
+import Driver.C10
 /-
   Line-protocol driver: one operation per input line, one canonical output line per operation.
   Imports `Model/` only (no Mathlib, no proofs) so that it links as a `lean_exe`.
@@ -12,6 +13,7 @@ open Amqp
 structure DState where
   rd : RdState := {}
   wire : Amqp.Wire.S := {}
+  alloc : Amqp.Alloc.A := { max := 0 }
 
 def handlers : List Handler := [
   Driver.C04.handle
@@ -24,6 +26,9 @@ def step (st : DState) (line : String) : DState × String :=
   | none =>
   match Driver.C01.stepCmd st.wire args with
   | some (w, o) => ({ st with wire := w }, o)
+  | none =>
+  match Driver.C10.stepCmd st.alloc args with
+  | some (al, o) => ({ st with alloc := al }, o)
   | none =>
     match handlers.findSome? (fun h => h args) with
     | some o => (st, o)
